@@ -790,6 +790,8 @@ class Evaluator:
                     fv = self.expr(b.value, {})  # e.g. a bound method of a compiled pattern
                     if callable(fv):
                         return fv(*args, **kwargs)
+                if f.id == 'next' and e.args and isinstance(e.args[0], ast.GeneratorExp) and isinstance(args[0], list):
+                    args[0] = iter(args[0])  # a generator expression is evaluated eagerly; next() takes its first value
                 if f.id in ('frozenset', 'bytes', 'sum', 'repr', 'iter', 'next', 'filter', 'hasattr', 'callable', 'getattr', 'hex', 'oct', 'bin', 'round', 'float', 'range', 'divmod', 'type', 'id'):
                     r = {'frozenset': frozenset, 'bytes': bytes, 'sum': sum, 'repr': repr, 'iter': iter, 'next': next, 'filter': filter, 'hasattr': hasattr, 'callable': callable, 'getattr': getattr, 'hex': hex, 'oct': oct, 'bin': bin, 'round': round, 'float': float, 'range': range, 'divmod': divmod, 'type': type, 'id': id}[f.id](*args, **kwargs)
                     return list(r) if f.id in ('filter', 'range') else r
@@ -940,6 +942,15 @@ class SourceBacked(Record):
         if isinstance(mem, ast.FunctionDef):
             return self._sb_call(mem, (x,), {})
         return any(y == x for y in self)
+
+
+DOM_EXCEPTIONS = ('DOMException', 'IndexSizeErr', 'DomstringSizeErr', 'HierarchyRequestErr', 'WrongDocumentErr', 'InvalidCharacterErr', 'NoDataAllowedErr', 'NoModificationAllowedErr', 'NotFoundErr',
+                  'NotSupportedErr', 'InuseAttributeErr', 'InvalidStateErr', 'SyntaxErr', 'InvalidModificationErr', 'NamespaceErr', 'InvalidAccessErr', 'ValidationErr')
+
+
+def xml_model():
+    """`xml` as far as the library uses it: the DOM exception classes, modelled by their names."""
+    return Record(dom=Record(**{n: n for n in DOM_EXCEPTIONS}))
 
 
 class Loose(Record):
